@@ -44,10 +44,10 @@ fn c04_lane_fns() {
     kani::cover!(a < 28, "valid OB lane");
 }
 
-//@ harness: c04_rdh_validators props=C04,C10 tier=quick class=crash covers=2 mem=16 timeout=1800 est=300
-//@ bounds: 4 ARBITRARY 64-byte headers through the RDH sanity validator and the RDH running checker (no precondition at all): no panic, no memory error (expected-page-counter overflow after 65535 pages is outside 4 headers)
+//@ harness: c04_rdh_validators props=C04 tier=quick class=crash covers=2 mem=20 timeout=1800 est=300
+//@ bounds: 2 ARBITRARY 64-byte headers through the RDH sanity validator and the RDH running checker (no precondition at all): no panic, no memory error (expected-page-counter overflow after 65535 pages is outside)
 #[kani::proof]
-#[kani::unwind(5)]
+#[kani::unwind(3)]
 #[kani::stub(alloc::fmt::format, crate::vsup::stub_format)]
 #[kani::stub(core::fmt::write, crate::vsup::stub_write)]
 fn c04_rdh_validators() {
@@ -55,7 +55,7 @@ fn c04_rdh_validators() {
     let mut rc = RdhCruRunningChecker::<RdhCru>::new();
     let mut any_err = false;
     let mut i = 0;
-    while i < 4 {
+    while i < 2 {
         let b: [u8; 64] = kani::any();
         let rdh = RdhCru::from_buf(&b).unwrap();
         let r1 = sv.sanity_check(&rdh);
